@@ -270,7 +270,7 @@ def decl(R, P):
         return
     R.fn(f)
     R.fn(q)
-    sp = f.calls("aws_byte_cursor_split_on_char")
+    sp = f.calls({"aws_byte_cursor_split_on_char", "aws_byte_cursor_split_on_char_n"})
     chars = sorted(f.is_const(RU.arg(f, c.node, 1)) for c in sp)
     R.check(chars == [32, 61], "DECL", "split-characters", "%s()" % f.name, "the declaration is split on ' ' and each pair on '='", "the declaration is split on %s" % chars)
     first = [c for c in sp if f.is_const(RU.arg(f, c.node, 1)) == 32]
